@@ -67,6 +67,8 @@ pub struct RunResult {
     pub under_skipped: Option<String>,
     /// How often the injected stat-by-name fault fired during the walk.
     pub stat_faults: u64,
+    /// How often an injected opendir / readdir fault fired (both walkers together).
+    pub dir_faults: u64,
 }
 
 /// The syscall shim (sim/faultshim), preloaded into this process so that a stat() by name
@@ -92,6 +94,13 @@ pub mod shim {
         let r = CString::new(root.to_str().unwrap()).unwrap();
         let p = CString::new(plan).unwrap();
         unsafe { std::mem::transmute::<*mut libc::c_void, SetFn>(f)(r.as_ptr(), p.as_ptr()) }
+    }
+    pub fn dir_faults() -> u64 {
+        let f = sym("faultshim_dir_faults");
+        if f.is_null() {
+            return 0;
+        }
+        unsafe { std::mem::transmute::<*mut libc::c_void, CntFn>(f)() as u64 }
     }
     pub fn stat_faults() -> u64 {
         let f = sym("faultshim_stat_faults");
@@ -249,6 +258,7 @@ pub fn run_parallel(base: &Path, case: &Case) -> RunResult {
         dup_during_run: sh.dup.clone(),
         under_skipped: sh.under.clone(),
         stat_faults: 0,
+        dir_faults: 0,
     }
 }
 
@@ -475,7 +485,8 @@ fn gen_case_c06(sub: u64, thorough: bool) -> Case {
     if stat_fault.is_none() && rng.chance(1, 8) && shim::available() {
         let dirs: Vec<&Node> = tree.nodes.iter().filter(|n| n.kind == NodeKind::Dir).collect();
         if !dirs.is_empty() {
-            opendir_fault = Some(dirs[rng.below(dirs.len())].path.clone());
+            let d = dirs[rng.below(dirs.len())].path.clone();
+            opendir_fault = Some(if rng.chance(1, 2) { d } else { format!("readdir:{}:{d}", rng.below(4)) });
         }
     }
     Case {
@@ -631,7 +642,8 @@ fn check_c06(case: &Case, base: &Path, r: &RunResult, serial: &[Seen]) -> Option
         return Some(Verdict { class, summary: format!("parallel and serial walkers disagree: {d}") });
     }
     // independent listing, when no rule-based filtering is active
-    if !case.cfg.ignore_files && !case.cfg.hidden && case.cfg.override_glob.is_none() && !case.cfg.type_x && !case.cfg.custom_ignore {
+    let partial_listing = case.opendir_fault.as_ref().map_or(false, |d| d.starts_with("readdir:"));
+    if !case.cfg.ignore_files && !case.cfg.hidden && case.cfg.override_glob.is_none() && !case.cfg.type_x && !case.cfg.custom_ignore && !partial_listing {
         let model = model_listing(base, &case.tree, &case.cfg);
         let mm = multiset(&model);
         if let Some(d) = diff_multisets(&sm, &mm, "walkers", "listing") {
@@ -759,7 +771,14 @@ fn evaluate(prop: &str, case: &Case, scratch: &Path) -> (RunResult, Option<Verdi
             plan.push(format!("stat_err=/{d}:13"));
         }
         if let Some(d) = &case.opendir_fault {
-            plan.push(format!("opendir_err=/r/{d}:13"));
+            // "readdir:<k>:<path>" = the directory opens, its k-th entry read fails
+            match d.strip_prefix("readdir:") {
+                Some(rest) => {
+                    let (k, path) = rest.split_once(':').unwrap_or(("0", rest));
+                    plan.push(format!("readdir_err=/r/{path}:{k}:5"));
+                }
+                None => plan.push(format!("opendir_err=/r/{d}:13")),
+            }
         }
         shim::set(&base, &plan.join(";"));
     }
@@ -774,9 +793,10 @@ fn evaluate(prop: &str, case: &Case, scratch: &Path) -> (RunResult, Option<Verdi
         // the serial walker meets the same fault; the independent listing does not (it is told
         // which file's size is unknown)
         let serial = run_serial(&base, &case.tree, &case.cfg);
+        r.dir_faults = shim::dir_faults();
         shim::set(&base, "");
         tree::SIZE_UNKNOWN.with(|c| *c.borrow_mut() = case.stat_fault.clone());
-        tree::UNLISTABLE.with(|c| *c.borrow_mut() = case.opendir_fault.clone());
+        tree::UNLISTABLE.with(|c| *c.borrow_mut() = case.opendir_fault.clone().filter(|d| !d.starts_with("readdir:")));
         let v = check_c06(case, &base, &r, &serial);
         tree::SIZE_UNKNOWN.with(|c| *c.borrow_mut() = None);
         tree::UNLISTABLE.with(|c| *c.borrow_mut() = None);
@@ -930,6 +950,7 @@ fn worker_main(opts: &Opts) {
             faults.add("stat-fails-at-device-check(syscall shim)", r.stat_faults);
         } else {
             faults.add("stat-fails-at-size-check(syscall shim)", r.stat_faults);
+            faults.add("opendir-or-readdir-fails(syscall shim, both walkers)", r.dir_faults);
         }
         faults.add("preemption", o.preemptions);
         faults.add("idle-sleep-simulated", o.idle_ms);
